@@ -453,7 +453,10 @@ def parse_reader_output(be, out):
                    "shape": [int(x) for x in f[3:3 + rank]], "elems": [], "unit": "", "_kinds": set()}
             cur["syms"][name] = sym
         elif line.startswith("E|") and sym is not None:
-            k, s, b, v = parse_el(be, line)
+            try:
+                k, s, b, v = parse_el(be, line)
+            except Exception:                                   # a reader that crashed in the middle of a line
+                k, s, b, v = "other", "na", 0, ("unreadable", line[:80])
             sym["_kinds"].add((k, s, b))
             sym["elems"].append(v)
     for o in res.values():
@@ -1038,19 +1041,18 @@ def run(replay=None):
         if "calls" not in h:
             continue
         nhist += 1
-        light = [{k: c[k] for k in ("op", "query", "tags", "opt") if k in c} for c in h["calls"]]
-        for k, c in enumerate(h["calls"]):
-            if c["op"] == "parse":                      # one scenario per parse of the history
-                recs.append({"family": "history", "be": h["be"], "class": c["class"], "feat": sorted(set(c["feat"]) | set(c["hfeat"])),
-                             "env": h["env"], "query": c["query"], "tags": c["tags"], "opt": c["opt"],
-                             "expect": [dict(e, feat=sorted(set(e["feat"]) | set(c["hfeat"]))) for e in c["expect"]],
-                             "unselected": c["unselected"], "_hist": {"calls": light, "k": k}})
+        c, k = h["last"], len(h["calls"]) - 1           # the scenario judges the last parse, after the calls before it
+        light = [dict(x, query=x.get("query", ""), tags=x.get("tags", [])) for x in h["calls"]]
+        recs.append({"family": "history", "be": h["be"], "class": c["class"], "feat": sorted(set(c["feat"]) | set(c["hfeat"])),
+                     "env": h["env"], "query": c["query"], "tags": c["tags"], "opt": c["opt"],
+                     "expect": [dict(e, feat=sorted(set(e["feat"]) | set(c["hfeat"]))) for e in c["expect"]],
+                     "unselected": c["unselected"], "_hist": {"calls": light, "k": k}})
     nchain = 0
     for h in r4.records:
         if "calls" not in h:
             continue
         nchain += 1
-        c = h["calls"][-1]                               # the last export of the chain is read back
+        c = h["last"]                                    # the last export of the chain is read back
         recs.append({"family": "chain", "be": c["be"], "class": c["class"], "feat": sorted(set(c["feat"]) | set(c["hfeat"])),
                      "env": h["env"], "query": c["query"], "tags": c["tags"], "opt": c["opt"],
                      "expect": [dict(e, feat=sorted(set(e["feat"]) | set(c["hfeat"]))) for e in c["expect"]],
